@@ -136,7 +136,25 @@ def enumerate_cases(tier, seed):
 
 
 def num(x):
+    if x is not None and float(x) != float(x):
+        return "nan"
     return None if x is None else round(float(x), 9) if abs(float(x)) < 1e6 else float(f"{float(x):.9e}")
+
+
+def dist_probe(fam, dist):
+    """what the distribution DOES: draws at fixed quantiles through a scripted generator (families whose draw is a
+    closed-form transform) and point probabilities at fixed masses"""
+    from ..scripted import ScriptedGenerator
+
+    out = []
+    if fam in ("gauss", "uniform", "log_normal", "poisson"):
+        for u in (0.1, 0.5, 0.9):
+            st, v = run_limited(lambda: float(dist.draw_mw(ScriptedGenerator((), menu=(u,)))), (), 5)
+            out.append((st, num(v) if st == "ok" else None))
+    for mw in (1, 50, 500, 5000, 3120470):
+        st, v = run_limited(lambda: float(dist.prob_mw(mw)), (), 5)
+        out.append((st, num(v) if st == "ok" else None))
+    return tuple(out)
 
 
 def fp(o, ext=True):
@@ -152,7 +170,8 @@ def fp(o, ext=True):
     if isinstance(o, gbigsmiles.Stochastic):
         d = c02.dist_numbers(o.distribution) if (ext and o.distribution is not None) else None
         if d is not None:
-            d = (d[0], tuple(num(x) for x in d[1]))
+            # printed parameters AND behaviour (a printer that loses digits prints the same text for both objects)
+            d = (d[0], tuple(num(x) for x in d[1]), dist_probe(d[0], o.distribution))
         return ("sto", fp(o.left_terminal, ext), fp(o.right_terminal, ext), tuple(fp(t, ext) for t in o.repeat_tokens), tuple(fp(t, ext) for t in o.end_tokens), d)
     if isinstance(o, gbigsmiles.Molecule):
         mx = None
